@@ -1,5 +1,5 @@
 From Tramp Require Import Model.Base Model.Fee Model.Classify Model.Node Model.Provider Model.ProviderSys Model.Sys.
-From Tramp Require Import Proofs.SysBasics Proofs.SysShape Proofs.SysTheorems Proofs.SysReach Proofs.SysCalls Proofs.SysNode Proofs.SysSafety Proofs.SysRecover Props.C09.
+From Tramp Require Import Proofs.SysBasics Proofs.SysShape Proofs.SysTheorems Proofs.SysReach Proofs.SysCalls Proofs.SysNode Proofs.SysSafety Proofs.SysRecover Proofs.SysCoop Props.C09.
 Check C09_crash_image_is_a_start_image : forall c n t0 h0 a0 evs,
   node_ok n -> hist_wf false c (sys_start n t0 h0 a0) evs ->
   node_ok (nd (fst (step c (after c n t0 h0 a0 evs) EvCrash))).
@@ -30,6 +30,26 @@ Check C09_aged_next_set_is_paid : forall c n t0 h0 a0 h h2 a t g p,
      (map resps (snd (run c (sys_start n t0 h0 a0) (recover_schedule h ++ second_schedule h2 (length (parts n)) p)))).
 Check C09_markfailed_write_never_refused : forall n a am b,
   snd (node_exec n (QWriteAtt CreateOrReplace a true false am b) NoFault) = Some YUnit.
+Check C09_cooperative_runs_never_fail : forall c B Dl n t0 h0 a0 evs,
+  mpp_ms c <> 0 -> node_ok n ->
+  (forall a, mem_att a (atts n) = true -> a < a0) ->
+  (forall a t g, ds n = Some (DPending a t, g) -> a < a0 /\ t0 - t < mpp_ms c) ->
+  hist_wf true c (sys_start n t0 h0 a0) evs -> Forall (ev_coop c B Dl) evs ->
+  forall o h m, In o (snd (run c (sys_start n t0 h0 a0) evs)) -> ~ In (OResp h (Fail m)) o.
+Check C09_cooperative_step : forall c B Dl s ev,
+  mpp_ms c <> 0 -> wreach true c s -> K c B Dl s -> ev_coop c B Dl ev ->
+  K c B Dl (fst (step c s ev)) /\ forall h m, ~ In (OResp h (Fail m)) (snd (step c s ev)).
+(* what "cooperative" means is pinned too *)
+Check (eq_refl : ev_coop = fun c B Dl ev =>
+  match ev with
+  | EvHtlc h => good_htlc c B Dl h
+  | EvProcess _ f => f = NoFault
+  | EvPayFinish _ o => exists p, o = PayComplete p
+  | EvTick _ => False
+  | _ => True
+  end).
+Check (eq_refl : good_htlc = fun c B Dl h =>
+  blob h = B /\ deliver h = Dl /\ (rel h <? Z.of_N (pol_delta (pol c)))%Z = false /\ fee_sufficient (pol c) (total h) (deliver h) = true).
 Print Assumptions C09_crash_image_is_a_start_image.
 Print Assumptions C09_never_wedged.
 Print Assumptions C09_free_image_pays.
@@ -41,3 +61,6 @@ Print Assumptions C09_aged_next_set_is_paid.
 Print Assumptions C09_markfailed_write_never_refused.
 Print Assumptions C09_D4_image_recovers.
 Print Assumptions C09_never_wedged_whatever_the_pending_parts_do.
+Print Assumptions C09_cooperative_runs_never_fail.
+Print Assumptions C09_cooperative_step.
+Print Assumptions C09_cooperative_nonvacuous.
